@@ -151,6 +151,45 @@ def run(repo, chk):
                    'word size, and both bounds of the stack size, must be validated (a negative stack size yields `.zero -Nw`, '
                    'which is not valid assembly although hidc reports success)', GEN)
 
+    # the lexer's patterns admit only text that the unguarded conversions (int(text, 16) ...) accept
+    chk.rule('C10.X6', 'diagnostic paths are themselves total: literal patterns admit only convertible text (C12.R1); building the '
+                       '"no matching function" diagnostic never raises for any name / flavour')
+    from . import c12
+    c12.run(repo, Remap(chk, {'C12.R1': 'C10.X6'}))
+    from ..consteval import Interp as _Interp
+    _it = _Interp(repo)
+    _ns = _it.load('hidc/ast/__init__.py')
+    _lex = _it.load('hidc/lexer/__init__.py')
+    _span = _lex['Span'](_lex['Cursor'](0, 0), _lex['Cursor'](0, 1))
+    _prog = _it.load('hidc/ast/program.py')
+    for base in ('print', 'println', 'printx', 'write', 'nosuch'):
+        for flav in _ns['Flavor']:
+            for argt in ((), (_ns['DataType'].INT,), (_ns['DataType'].STRING,), (_ns['DataType'].BOOL, _ns['DataType'].BOOL)):
+                env = _ns['Environment'].empty()
+                env.add_funcs(_prog['builtin_stubs'])
+                args = tuple(_ns['VariableLookup'](_ns['Variable'](f'a{i}', t, False), _span) for i, t in enumerate(argt))
+
+                class _Pre:
+                    def __init__(self, e):
+                        self.e = e
+
+                    def evaluate(self, env):
+                        return self.e
+                call = _ns['FuncCall'](_ns['Ident'](base, flav), tuple(_Pre(a) for a in args), _span)
+                try:
+                    call.evaluate(env)
+                    outcome = 'accepted'
+                except _ns['TypeCheckError']:
+                    outcome = 'TypeCheckError'
+                except Exception as e:      # noqa
+                    outcome = f'{type(e).__name__}: {e}'
+                ok = outcome in ('accepted', 'TypeCheckError')
+                if not ok:
+                    chk.fail('C10.X6', f'FuncCall.evaluate({flav.value}{base}/{len(argt)} args)',
+                             f'resolving a call to an undefined function raised {outcome} instead of a TypeCheckError', 'hidc/ast/expressions.py')
+    if not any(v['rule'] == 'C10.X6' and 'FuncCall.evaluate' in v['construct'] for v in chk.violations):
+        chk.ok('C10.X6', 'FuncCall.evaluate diagnostics', '5 names x 3 flavours x 4 argument lists resolve or give TypeCheckError')
+
     # ---------------- X2 ------------------------------------------------------------------
     ast_rels = ['hidc/ast/blocks.py', 'hidc/ast/expressions.py', 'hidc/ast/operators.py', 'hidc/ast/statements.py']
     bases = repo.class_bases(ast_rels)
